@@ -1500,7 +1500,8 @@ class Parameter(_ParameterBase):
         event = Event(what=attribute, name=self.name, obj=None, cls=self.owner,
                       old=old, new=new, type=None)
         try:
-            for watcher in self.watchers[attribute]:
+            # (a copy: a watcher may remove itself, or add another one, while it runs)
+            for watcher in list(self.watchers[attribute]):
                 self.owner.param._call_watcher(watcher, event)
         finally:
             # Also when a watcher raised: what queued watchers have queued
